@@ -797,6 +797,76 @@ fn conditioner_on_the_other_link(n: usize) -> Result<Option<u64>, String> {
     Ok(Some(n as u64))
 }
 
+/// The server reads its sockets, a client message arrives right afterwards, and later in the
+/// same frame the server sends `n` messages and drops the client (`DisconnectRequest`): the socket
+/// is closed with unread data, so the client sees a reset instead of a graceful close. What was
+/// written before the drop still arrives, once and in order.
+fn reset_after_last_messages(n: usize) -> Result<Option<u64>, String> {
+    let mut server = build_app();
+    let mut client = build_app();
+    let socket = ExampleServer::new(0).map_err(|e| format!("bind: {e}"))?;
+    let port = socket.local_addr().map_err(|e| e.to_string())?.port();
+    server.insert_resource(socket);
+    client.insert_resource(ExampleClient::new(port).map_err(|e| format!("connect: {e}"))?);
+    let mut conn = None;
+    for _ in 0..300 {
+        server.update();
+        client.update();
+        let now: Vec<Entity> = {
+            let w = server.world_mut();
+            let mut q = w.query_filtered::<Entity, With<AuthorizedClient>>();
+            q.iter(w).collect()
+        };
+        if now.len() == 1 && client.world().resource::<RepliconClient>().is_connected() {
+            conn = Some(now[0]);
+            break;
+        }
+        std::thread::sleep(Duration::from_millis(1));
+    }
+    let Some(conn) = conn else { return Ok(None) };
+    for _ in 0..2 {
+        server.update();
+        client.update();
+    }
+    client.world_mut().resource_mut::<Got>().0.clear();
+    // the first half of a server frame: sockets are read
+    server.world_mut().run_schedule(First);
+    server.world_mut().run_schedule(PreUpdate);
+    let _ = server.world_mut().try_run_schedule(Update);
+    // a client message arrives right after that
+    client.world_mut().send_event(Up0(7, vec![1, 2, 3]));
+    client.update();
+    std::thread::sleep(Duration::from_millis(2));
+    // the rest of the server frame: a batch of messages and the drop
+    let mut want = Vec::new();
+    for i in 0..n as u32 {
+        let p = payload(i, 16);
+        server.world_mut().send_event(ToClients { mode: SendMode::Broadcast, event: Down0(i, p.clone()) });
+        want.push((0u8, i, p));
+    }
+    server.world_mut().send_event(DisconnectRequest { client: conn });
+    server.world_mut().run_schedule(PostUpdate);
+    let _ = server.world_mut().try_run_schedule(Last);
+    std::thread::sleep(Duration::from_millis(2));
+    let mut all: Vec<(u8, u32, Vec<u8>)> = Vec::new();
+    for _ in 0..6 {
+        client.update();
+        all.append(&mut client.world_mut().resource_mut::<Got>().0);
+        std::thread::sleep(Duration::from_micros(300));
+    }
+    if !client.world().resource::<RepliconClient>().is_disconnected() {
+        // the drop has not reached the client: nothing can be concluded from this run
+        return Ok(None);
+    }
+    if all != want {
+        return Err(format!(
+            "the server wrote {n} messages and then dropped the connection (closed with unread client data); the client received {:?} before it noticed the drop",
+            all.iter().map(|m| m.1).collect::<Vec<_>>()
+        ));
+    }
+    Ok(Some(n as u64))
+}
+
 fn loopback_part(tier: Tier, out: &mut Outcome, bad: &mut Vec<Bad>) {
     let counts: Vec<usize> = if tier.quick() { vec![1, 2, 3, 4, 7, 12, 16] } else { (1..=48).collect() };
     let sizes: Vec<usize> = if tier.quick() { vec![2, 130, 1197, 1200] } else { vec![2, 3, 129, 130, 131, 1196, 1197, 1198, 1199, 1200] };
@@ -936,6 +1006,33 @@ fn loopback_part(tier: Tier, out: &mut Outcome, bad: &mut Vec<Bad>) {
             }),
         }
     }
+    // the last messages before a dropped connection
+    for n in [1usize, 3, 12] {
+        let mut result = None;
+        for _ in 0..3 {
+            match guarded(|| reset_after_last_messages(n)).unwrap_or_else(|(m, l)| Err(format!("panic: {m} ({l})"))) {
+                Ok(None) => continue,
+                other => {
+                    result = Some(other);
+                    break;
+                }
+            }
+        }
+        runs += 1;
+        match result {
+            None => inconclusive += 1,
+            Some(Ok(Some(d))) => {
+                outcomes.insert(4_000_000 + d);
+            }
+            Some(Ok(None)) => unreachable!(),
+            Some(Err(e)) => bad.push(Bad {
+                oracle: if e.starts_with("bind") || e.starts_with("connect") { "socket" } else { "loopback-last-messages" },
+                case: format!("{n} messages written right before the server drops the client"),
+                detail: e,
+                replay: json!({"kind": "loopback", "n": n, "size": 0, "upstream": false, "reset": true}),
+            }),
+        }
+    }
     // a conditioner configured on another client's link only
     for n in [1usize, 3, 12] {
         let mut stalls = 0;
@@ -1043,6 +1140,21 @@ pub fn replay(doc: &serde_json::Value) -> i32 {
                     Ok(Some(_)) => break,
                     Err(e) => {
                         println!("VIOLATION property=C17 replay=<file> oracle=loopback-segmented :: {e}");
+                        return 1;
+                    }
+                }
+            }
+            println!("replay passes: no violation");
+            return 0;
+        }
+        if doc["reset"].as_bool().unwrap_or(false) {
+            let n = doc["n"].as_u64().unwrap() as usize;
+            for _ in 0..3 {
+                match reset_after_last_messages(n) {
+                    Ok(None) => continue,
+                    Ok(Some(_)) => break,
+                    Err(e) => {
+                        println!("VIOLATION property=C17 replay=<file> oracle=loopback-last-messages :: {e}");
                         return 1;
                     }
                 }
